@@ -101,6 +101,10 @@ pub enum TableCase {
     Un(usize, usize),
     Tern(usize, usize, usize),
     Bool(usize, usize, usize, usize, usize),
+    /// (operator, literal, side, template?)
+    MixedBin(usize, usize, usize, usize),
+    /// (position, a, b, template?)
+    MixedTern(usize, usize, usize, usize),
 }
 
 pub fn table_cases(alphabet_len: usize, tier: Tier) -> Vec<TableCase> {
@@ -139,6 +143,25 @@ pub fn table_cases(alphabet_len: usize, tier: Tier) -> Vec<TableCase> {
             }
         }
     }
+    // One operand unknown, the other a literal.
+    for op in 0..nb {
+        for a in 0..alphabet_len {
+            for side in 0..2 {
+                for template in 0..2 {
+                    v.push(TableCase::MixedBin(op, a, side, template));
+                }
+            }
+        }
+    }
+    for pos in 0..4 {
+        for a in &small {
+            for b in &small {
+                for template in 0..2 {
+                    v.push(TableCase::MixedTern(pos, *a, *b, template));
+                }
+            }
+        }
+    }
     v
 }
 
@@ -154,6 +177,8 @@ pub fn table_source(case: &TableCase, alphabet: &[BigUint]) -> String {
             &alphabet[*a],
             &alphabet[*b],
         ),
+        TableCase::MixedBin(op, a, side, template) => mixed_binop_program(binop_symbols()[*op], &alphabet[*a], *side, *template == 1),
+        TableCase::MixedTern(pos, a, b, template) => mixed_ternary_program(*pos, &alphabet[*a], &alphabet[*b], *template == 1),
     }
 }
 
@@ -163,6 +188,8 @@ pub fn table_case_json(case: &TableCase, curve: &str) -> Value {
         TableCase::Un(op, a) => json!({"kind": "table", "curve": curve, "form": "un", "ix": [op, a]}),
         TableCase::Tern(c, a, b) => json!({"kind": "table", "curve": curve, "form": "tern", "ix": [c, a, b]}),
         TableCase::Bool(r1, l, r2, a, b) => json!({"kind": "table", "curve": curve, "form": "bool", "ix": [r1, l, r2, a, b]}),
+        TableCase::MixedBin(op, a, side, t) => json!({"kind": "table", "curve": curve, "form": "mixed-bin", "ix": [op, a, side, t]}),
+        TableCase::MixedTern(pos, a, b, t) => json!({"kind": "table", "curve": curve, "form": "mixed-tern", "ix": [pos, a, b, t]}),
     }
 }
 
@@ -173,6 +200,8 @@ pub fn table_case_from_json(v: &Value) -> Option<TableCase> {
         "un" => TableCase::Un(ix[0], ix[1]),
         "tern" => TableCase::Tern(ix[0], ix[1], ix[2]),
         "bool" => TableCase::Bool(ix[0], ix[1], ix[2], ix[3], ix[4]),
+        "mixed-bin" => TableCase::MixedBin(ix[0], ix[1], ix[2], ix[3]),
+        "mixed-tern" => TableCase::MixedTern(ix[0], ix[1], ix[2], ix[3]),
         _ => return None,
     })
 }
@@ -181,7 +210,9 @@ pub fn run(run: &Run) {
     run.set_rule(
         "operator table: for each of the three primes, `var x = A; var y = B; var z = x op y` (20 infix, \
          3 prefix, ternary, boolean connectives over comparisons) for all A, B in a 14-value literal \
-         alphabet {0,1,2,3,253,254,255,10^11,p/2,p/2+1,p-2,p-1,2^64,2^(bits-2)}; control flow: every \
+         alphabet {0,1,2,3,253,254,255,10^11,p/2,p/2+1,p-2,p-1,2^64,2^(bits-2)}, and the same operators \
+         with one operand unknown (parameter in a function / input signal in a template, either side) \
+         and ternaries / prefix operators with unknown parts; control flow: every \
          skeleton (braced bodies, for) up to the statement bound x every assignment of 7 atoms and 4 \
          conditions, as function and as template, run for n in {0,1,2,p-1}; non-trivial = the program \
          lifts and at least one value claim was compared with a concrete value",
@@ -273,7 +304,8 @@ pub fn run(run: &Run) {
             run.watch(&case);
             let dir = root.join(format!("{:?}", std::thread::current().id()).replace(|c: char| !c.is_ascii_alphanumeric(), ""));
             run.eval(1);
-            if let Ok(cfg) = pipe::lift_via_runner(&src, &dir, "f", true, false) {
+            let is_template = src.contains("template T(");
+            if let Ok(cfg) = pipe::lift_via_runner(&src, &dir, if is_template { "T" } else { "f" }, !is_template, false) {
                 let audit = audit_cfg(&cfg, &field, &src, &case, "/runner");
                 run.add_extra_count("value_claims_compared_via_runner", audit.claims);
                 run.violations(audit.violations);
